@@ -44,8 +44,10 @@ from workflows.workflow import Workflow
 
 from .._store.abstract_workflow_store import (
     AbstractWorkflowStore,
+    HandlerQuery,
     PersistentHandler,
     Status,
+    is_terminal_status,
 )
 
 logger = logging.getLogger(__name__)
@@ -175,6 +177,7 @@ class ServerRuntimeDecorator(BaseRuntimeDecorator):
         self._persistence_backoff = (
             list(persistence_backoff) if persistence_backoff is not None else [0.5, 3]
         )
+        self._completion_observers: set[asyncio.Task[None]] = set()
 
     async def _retry_store_write(self, coro_fn: Callable[[], Awaitable[None]]) -> None:
         """Wrap a store write with retry/backoff."""
@@ -252,7 +255,7 @@ class ServerRuntimeDecorator(BaseRuntimeDecorator):
             store_type = serialized_state.get("store_type")
             if store_type is not None and store_type != "in_memory":
                 passthrough_state = None
-        return super().run_workflow(
+        adapter = super().run_workflow(
             run_id,
             workflow,
             init_state,
@@ -260,6 +263,35 @@ class ServerRuntimeDecorator(BaseRuntimeDecorator):
             serialized_state=passthrough_state,
             serializer=serializer,
         )
+        task = asyncio.create_task(self._observe_completion(run_id, adapter))
+        self._completion_observers.add(task)
+        task.add_done_callback(self._completion_observers.discard)
+        return adapter
+
+    async def _observe_completion(
+        self, run_id: str, adapter: ExternalRunAdapter
+    ) -> None:
+        """Mark the handler failed when its run ends without a terminal event.
+
+        Normal outcomes publish a terminal event, which already updated the
+        handler. A run that dies any other way (for example a store failure while
+        recording an event) would otherwise leave the handler 'running' forever.
+        """
+        try:
+            await adapter.get_result()
+        except asyncio.CancelledError:
+            raise
+        except Exception as e:
+            try:
+                found = await self._store.query(HandlerQuery(run_id_in=[run_id]))
+                if found and not is_terminal_status(found[0].status):
+                    await self._handle_status_update(run_id, "failed", error=str(e))
+            except Exception:
+                logger.exception(
+                    "Failed to mark handler of run %s as failed after its run ended: %s",
+                    run_id,
+                    e,
+                )
 
     def get_internal_adapter(self, workflow: Workflow) -> InternalRunAdapter:
         """Wraps the inner runtime's adapter in _ServerInternalRunAdapter."""
